@@ -2,6 +2,7 @@ import TWV.Driver.Proto
 import TWV.Model.Arrays
 import TWV.Model.Interval
 import TWV.Model.Process
+import TWV.Model.Datasets
 
 /-! # Driver operations for the array helpers, the interval view and `process.py` -/
 
@@ -211,6 +212,20 @@ def opDefaultS : List String → String
     | _ => bad2
   | _ => bad2
 
+def opResolve : List String → String
+  | [name, registry] =>
+    let reg := (registry.splitOn ",").map Datasets.ofString
+    match Datasets.resolve reg (Datasets.ofString name) with
+    | .ok f => "ok " ++ Datasets.toString f
+    | .error e => "ERR " ++ toString e
+  | _ => bad2
+
+def optStr (s : String) : Option Datasets.Str := if s = "none" then none else some (Datasets.ofString s)
+
+def opDataHome : List String → String
+  | [arg, env, dflt] => "ok " ++ Datasets.toString (Datasets.dataHome (optStr arg) (optStr env) (Datasets.ofString dflt))
+  | _ => bad2
+
 def dispatch2 (op : String) (args : List String) : Option String :=
   match op with
   | "oversample" => some (opOversample args)
@@ -232,6 +247,8 @@ def dispatch2 (op : String) (args : List String) : Option String :=
   | "linspace" => some (opLinspace args)
   | "noisevar" => some (opNoiseVar args)
   | "defaults" => some (opDefaultS args)
+  | "resolve" => some (opResolve args)
+  | "datahome" => some (opDataHome args)
   | _ => none
 
 end TWV.Driver
